@@ -83,14 +83,14 @@ def check(ctx):
                     # R-ZEROVAR: the guard precedes the square root on this configuration
                     if ws:
                         ev = I.events[lo:]
-                        guards = [i for i, e in enumerate(ev) if e["kind"] == "raise" and e.get("short", "").endswith("StandardFlexibleScaler.fit")]
+                        guards = [i for i, e in enumerate(ev) if e["kind"] == "raise" and e.get("short", "").startswith("StandardFlexibleScaler.")]
                         sets = [i for i, e in enumerate(ev) if e["kind"] == "setattr" and e["attr"] == "scale_" and e["value"].term.op != "const"]
                         ok = bool(guards) and bool(sets) and max(guards) < min(sets)
                         conds = [repr(c) for e in ev if e["kind"] == "raise" for c, pol in e["pc"][-1:]]
                         okc = any(tq.cmp_parts(c_) is not None and tq.has_sym(c_, "atol") and tq.has_sym(c_, "rtol") or (tq.has_sym(c_, "atol") and tq.has_sym(c_, "rtol") and tq.has_op(c_, "lt", "gt", "le", "ge")) for e in ev if e["kind"] == "raise" for c_, pol in e["pc"][-1:])
                         ctx.ob("R-ZEROVAR", f"variance compared with atol + |mean| rtol and rejected before the square root [{cfg}]", ok and okc, f"raise at {guards}, scale_ set at {sets}, guard {conds[:1]}", site, cfg)
                         # the guard itself, against the reference condition
-                        gconds = [c_ for e in ev if e["kind"] == "raise" and e.get("short", "").endswith("StandardFlexibleScaler.fit") for c_, pol in e["pc"][-1:] if pol]
+                        gconds = [c_ for e in ev if e["kind"] == "raise" and e.get("short", "").startswith("StandardFlexibleScaler.") for c_, pol in e["pc"][-1:] if pol]
                         if ctx.ob("R-ZEROVAR", f"guard condition located [{cfg}]", bool(gconds), f"{len(gconds)} guard(s)", site, cfg):
                             I3, s3 = ctx.interp(), State()
                             h = st.heap[o.obj.id]
